@@ -321,7 +321,7 @@ theorem batches_gen (fields : List Field) (h0 : newRoot fields = .ok r0) (hsafe 
 end
 
 /-- **batches (R1 level).** In any history — records of ANY shape, raw key/value call streams included (a Map builder
-refuses the non-alternating ones since repo fix bcc3416; the former hypothesis `rawOK` is gone) — build k sees a
+refuses the non-alternating ones since repo fix eafdf15; the former hypothesis `rawOK` is gone) — build k sees a
 well-formed root holding exactly as many rows as were added since build k-1 (each column at that length,
 `C01.runRows_rows`), returns `finishFields` of that state, and the builder continues from the fresh builder of the
 schema. -/
